@@ -3,7 +3,7 @@
 # usage: seed_confirm.sh <id> <property> <srcdir(with patch.diff,demo,README)> <demo-file> <demo-dest-rel-path> <demo-dir-rel> <demo-run-regex> <needs...> -- <module dirs for the existing tests...>
 set -u
 id=$1; prop=$2; src=$3; demo=$4; dest=$5; ddir=$6; rx=$7; shift 7
-mods=("$@")
+mods=(); for a in "$@"; do [ "$a" = "--" ] || mods+=("$a"); done
 wt=/tmp/wt-confirm-$id
 git -C /repo worktree remove --force $wt 2>/dev/null
 git -C /repo worktree add -q $wt HEAD || exit 2
@@ -16,11 +16,12 @@ cp $src/README.md $out/README.agent.md 2>/dev/null
 res_apply=fail; res_demo_with=unknown; res_demo_without=unknown; res_tests=unknown
 if git -C $wt apply --check $out/patch.diff 2>/dev/null; then res_apply=ok; else echo "PATCH DOES NOT APPLY on current HEAD"; fi
 if [ $res_apply = ok ]; then
+  mkdir -p $(dirname $wt/$dest)
   cp $src/$demo $wt/$dest
   # without patch
-  if ns $wt/$ddir go test -vet=off -count=1 -run "$rx" ./... > $out/demo_without.log 2>&1; then res_demo_without=pass; else res_demo_without=fail; fi
+  if ns $wt/$ddir env ${DEMO_ENV:-X=1} go test -vet=off -count=1 -run "$rx" ./... > $out/demo_without.log 2>&1; then res_demo_without=pass; else res_demo_without=fail; fi
   git -C $wt apply $out/patch.diff
-  if ns $wt/$ddir go test -vet=off -count=1 -run "$rx" ./... > $out/demo_with.log 2>&1; then res_demo_with=pass; else res_demo_with=fail; fi
+  if ns $wt/$ddir env ${DEMO_ENV:-X=1} go test -vet=off -count=1 -run "$rx" ./... > $out/demo_with.log 2>&1; then res_demo_with=pass; else res_demo_with=fail; fi
   rm -f $wt/$dest
   res_tests=pass
   : > $out/existing_tests.log
